@@ -47,11 +47,12 @@ pub fn canon(msg: &MarshalledMessage, serial: Option<NonZeroU32>) -> String {
         ByteOrder::BigEndian => "B",
     };
     let ser = serial.or(d.serial).map(|s| s.get()).unwrap_or(0);
-    // num_fds and signature are written by the marshaller from the body, so derive them the same way
-    // for a message that has not been through the wire yet
-    let nf = match d.num_fds {
-        Some(n) => n as usize,
-        None => msg.body.get_fds().len(),
+    // UNIX_FDS is written by the marshaller from the body of a message that is being built (serial given);
+    // for a received message it is what the header said
+    let nf = if serial.is_some() {
+        msg.body.get_fds().len()
+    } else {
+        d.num_fds.unwrap_or(0) as usize
     };
     format!(
         "{};{};{};{};{};{};{};{};{};{};{};{};{};{}",
